@@ -121,6 +121,26 @@ def _replay(ctx, repo):
                       "('invalid cycle' / 'two messages in a cycle')")
     if n < 2:
         raise AnalysisError(f"R-REPLAY: {n} replay loops found over {buf} (expected 2)")
+    # replayed messages go back to the agent queue AHEAD of the algorithm messages already waiting there: their priority is a constant below MSG_ALGO
+    from .c19 import _const
+    msg_algo = _const(repo, "pydcop.infrastructure.communication", "MSG_ALGO")
+    k = 0
+    for fn in ("start", "pause"):
+        f = repo.func("pydcop.infrastructure.computations", f"MessagePassingComputation.{fn}")
+        for loop in _drain_loops(f.node, buf):
+            for c in ast.walk(loop):
+                if isinstance(c, ast.Call) and (is_self_attr(c.func, "_msg_sender") or is_self_attr(c.func, "message_sender")) and len(c.args) >= 4:
+                    k += 1
+                    pr = c.args[3]
+                    pv = pr.value if isinstance(pr, ast.Constant) and isinstance(pr.value, int) else None
+                    if isinstance(pr, ast.Name):
+                        cm = repo.module("pydcop.infrastructure.communication").constants.get(pr.id) or repo.module("pydcop.infrastructure.computations").constants.get(pr.id)
+                        pv = cm.value if cm is not None else None
+                    ctx.check(pv is not None and pv < msg_algo, "R-REPLAY", f"MessagePassingComputation.{fn}: replayed messages are queued with a priority below MSG_ALGO ({msg_algo})", f, c,
+                              "a round-i message kept during a pause must be handled before the round-(i+1) message of the same neighbour that is already waiting in the agent queue "
+                              "with MSG_ALGO: replayed behind it, the round order of that channel is inverted and the mixin stalls")
+    if k < 2:
+        raise AnalysisError(f"R-REPLAY: {k} re-injection calls found (expected 2)")
 
 
 def check(ctx: Ctx):
@@ -597,6 +617,7 @@ def _conform(ctx, repo, mixin):
 
 _F = "pydcop/infrastructure/computations.py"
 VARIANTS = [
+    ("resume_replays_behind_waiting_messages", _F, "                self._msg_sender(src, self.name, msg, 19)\n            self.logger.debug(\n                \"On resume", "                self._msg_sender(src, self.name, msg, 21)\n            self.logger.debug(\n                \"On resume", "break", "R-REPLAY"),
     ("start_replays_without_emptying", _F, "        pending_msg_count = 0\n        while self._paused_messages_recv:\n            pending_msg_count += 1\n            src, msg, t = self._paused_messages_recv.pop(0)\n",
      "        pending_msg_count = len(self._paused_messages_recv)\n        for src, msg, t in self._paused_messages_recv:\n", "break", "R-REPLAY"),
     ("copy_dropped", _F, "        remaining_neighbors = list(self.neighbors)\n", "        remaining_neighbors = self.neighbors\n", "break", "R-SWITCH"),
